@@ -335,6 +335,17 @@ for (n, ks, bs, r, comp, flt, ns, tier) in ((1, (1,), 1, 1, 0, 0, 0, "quick"), (
 from obl.c11_parts import who_verifies_obls
 OBLIGATIONS += who_verifies_obls("h")
 
+# i: lcdb's block reader decodes entries exactly as an independent decoder of the standard block format does,
+# for arbitrary block bytes (incl. multi-byte varint headers): shared with C18
+import copy as _copy
+from obl.C18 import OBLIGATIONS as _c18
+for _o in _c18:
+    if _o.name in ("e.block-first-N12", "e.block-first-next-N12", "e.block-seek-N12-T2"):
+        _n = _copy.copy(_o)
+        _n.name = "i." + _o.name.split(".", 1)[1]
+        _n.tier = "quick"
+        OBLIGATIONS.append(_n)
+
 META = {
     "level": "model_checking",
     "level_text": ("Bounded model checking (CBMC 6.11) of lcdb's own table-format code, one component per query: "
